@@ -1,9 +1,10 @@
 CONSTANTS
   N = 2
   MaxCmd = 1
-  MaxVar = 2
+  MaxVar = 1
   NCtx = 0
   Nesting = FALSE
+  TaskAllow = TRUE
   AtomicLaunch = TRUE
   HookKinds = {"none", "ok", "fail"}
 SPECIFICATION Spec
